@@ -19,5 +19,8 @@ if tried:
     text += ("\n\nOther engineers have already delivered the following changes for this property; do NOT repeat them - "
              "choose different functions, different mechanisms and different triggering conditions (other clauses of the "
              "property, other modules it is anchored in):\n" + "\n".join(tried) + "\n")
+hint = os.environ.get("SEED_HINT")
+if hint:
+    text += "\nThis time look in particular at: " + hint + "\n"
 open(f"/tmp/seedprompt-{pid}-{tag}.txt", "w").write(text)
 print(wt)
